@@ -137,16 +137,15 @@ def _r2(ctx):
     ctx.check(len(rec) == 1, "R2", "throughput candidates = 1/n, n in range(1, 11)", f.where(),
               "throughput candidates are not [1/x for x in range(1, 11)]: %s" % [U(a.value) for a in C.assigns_to(f.node, "reciprocals")],
               f.qname, "reciprocals")
-    tp = [n for n in ast.walk(f.node) if isinstance(n, ast.If) and isinstance(n.test, ast.Compare) and len(n.test.ops) == 2]
+    tp = [n for n in ast.walk(f.node) if isinstance(n, ast.If) and isinstance(C.enclosing_loop(n), ast.For)
+          and C.bounds_on(n.test, m) is not None]
     ok = False
     if tp and rec:
         t = tp[0].test
         loop = C.enclosing_loop(tp[0])
         r = U(loop.target) if isinstance(loop, ast.For) and U(loop.iter) == U(rec[0][1]["M_r"]) else None
         if r:
-            lo, mid, hi = U(t.left), U(t.comparators[0]), U(t.comparators[1])
-            ops = [type(o).__name__ for o in t.ops]
-            ok = lo in ("%s * 0.95" % r, "0.95 * %s" % r) and mid == m and hi in ("%s * 1.05" % r, "1.05 * %s" % r) and ops == ["LtE", "LtE"]
+            ok = C.bounds_on(t, m) == ("and", {("GtE", frozenset({(r, 0.95)})), ("LtE", frozenset({(r, 1.05)}))})
             ret = [s for s in tp[0].body if isinstance(s, ast.Return)]
             okr = bool(ret) and pm.match("round(%s, M_d)" % r, ret[0].value) is not None
             ctx.check(okr, "R2", "an accepted throughput is the matching reciprocal", f.where(tp[0]),
@@ -154,21 +153,27 @@ def _r2(ctx):
             facts = [(U(e), p) for e, p in C.facts_at(tp[0])]
             ctx.check(("%s == 'tp'" % mode, True) in facts, "R2", "reciprocal snapping applies to throughput mode", f.where(tp[0]),
                       "reciprocal snapping is not under mode == 'tp'", f.qname, "tp mode")
-    ctx.check(ok, "R2", "throughput window = [0.95 * 1/n, 1.05 * 1/n]", f.where(tp[0]) if tp else f.where(),
-              "throughput acceptance window is `%s`" % (U(tp[0].test) if tp else "not found"), f.qname, "tp window")
-    lt = [n for n in ast.walk(f.node) if isinstance(n, ast.If) and isinstance(n.test, ast.BoolOp) and "math.floor" in U(n.test)]
+    if tp and rec:
+        ctx.check(ok, "R2", "throughput window = [0.95 * 1/n, 1.05 * 1/n]", f.where(tp[0]),
+                  "throughput acceptance window is `%s`" % U(tp[0].test), f.qname, "tp window")
+    else:
+        ctx.unknown("R2", "tp window", f.where(), "no `if <bounds on the measurement>` inside a loop over the reciprocal candidates found")
+    lt = [n for n in ast.walk(f.node) if isinstance(n, ast.If) and "math.floor" in U(n.test) and C.bounds_on(n.test, m) is not None]
     okl = False
     if lt:
-        parts = {U(v) for v in lt[0].test.values}
-        okl = isinstance(lt[0].test.op, ast.Or) and parts == {"math.floor(%s) * 1.05 >= %s" % (m, m), "math.ceil(%s) * 0.95 <= %s" % (m, m)}
+        okl = C.bounds_on(lt[0].test, m) == ("or", {("LtE", frozenset({("math.floor(%s)" % m, 1.05)})),
+                                                    ("GtE", frozenset({("math.ceil(%s)" % m, 0.95)}))})
         ret = [s for s in lt[0].body if isinstance(s, ast.Return)]
         ctx.check(bool(ret) and U(ret[0].value) == "float(round(%s))" % m, "R2", "an accepted latency is rounded to the nearest integer",
                   f.where(lt[0]), "accepted latency returns %s" % (U(ret[0].value) if ret else None), f.qname, "lt return")
         facts = [(U(e), p) for e, p in C.facts_at(lt[0])]
         ctx.check(("%s == 'lt'" % mode, True) in facts, "R2", "integer snapping applies to latency mode", f.where(lt[0]),
                   "integer snapping is not under mode == 'lt'", f.qname, "lt mode")
-    ctx.check(okl, "R2", "latency window = within 5 % of floor or ceil", f.where(lt[0]) if lt else f.where(),
-              "latency acceptance test is `%s`" % (U(lt[0].test) if lt else "not found"), f.qname, "lt window")
+    if lt:
+        ctx.check(okl, "R2", "latency window = within 5 % of floor or ceil", f.where(lt[0]),
+                  "latency acceptance test is `%s`" % U(lt[0].test), f.qname, "lt window")
+    else:
+        ctx.unknown("R2", "lt window", f.where(), "no `if <bounds on the measurement by floor/ceil>` found")
     last = f.node.body[-1]
     ctx.check(isinstance(last, ast.Return) and U(last.value) == "None", "R2", "outside the tolerances the value is None (not invented)",
               f.where(last), "the fall-through result is %s" % U(last), f.qname, "fallthrough None")
